@@ -133,6 +133,33 @@ CHECKS = {
         "be encoded to latin-1 may be refused with a clean 500 (counted, not judged).",
         "DESIGN.md 4 C08",
     ),
+    "C15": (
+        "sync",
+        "exploration",
+        "runtime monitoring: relational (two-run) non-interference oracle on the environ seen behind the real "
+        "server-installed proxy middleware, plus a third trusted run for non-vacuity",
+        "For generated requests x values of the six proxy headers (well-formed, malformed, degenerate, hostile, "
+        "single-byte mutated; case/underscore aliases; duplicated lines) x untrusted peers (incl. prefixes of the trusted "
+        "address and the unix peer) x every allowed trust configuration, the environ with the headers must equal the "
+        "environ with the header lines deleted on the seven connection variables and on every other key; with clearing on "
+        "the headers must be absent. A third run with the peer trusted counts how often each variable would have changed.",
+        "Trusts SyncHarness and the recorder application; trusted_proxy='*' is excluded by the property.",
+        "DESIGN.md 4 C15",
+    ),
+    "C16": (
+        "sync",
+        "exploration",
+        "runtime monitoring: reference trust-rule model + taint markers per hop + totality monitor (exception hook on "
+        "parse_proxy_headers, status in {200,400}) over generated and single-byte-mutated proxy header values",
+        "Hop lists of length 0..5 with a unique marker per hop x trusted_proxy_count 1..4 x every allowed subset of "
+        "trusted kinds x untrusted kinds present x quoting/bracket/port forms x the degenerate catalogue at every list "
+        "position, and the complete single-byte neighbourhood of 10 base values. Checks: never 500 / exception; only "
+        "trusted kinds influence the seven variables; values come from the trusted_proxy_count-th hop from the right; no "
+        "marker of a hop left of the trusted suffix occurs in any environ value; the listed malformed classes give 400.",
+        "Trusts the reference hop/kind rules written from docs/reverse-proxy.rst; degenerate values the property does not "
+        "classify (e.g. an empty host NAME as in 'host=:80') accept 400 or the reference value and are counted as unclassified.",
+        "DESIGN.md 4 C16",
+    ),
 }
 
 PENDING = {}
